@@ -64,7 +64,15 @@ def get_utility_and_feasibility_function(
     # Create the utility and feasability function
     # ==================================================================================
 
-    arg_names = {"vf_arr"} | get_union_of_arguments(relevant_functions) - {"_period"}
+    # Sparse variables and choices are always part of the space the function is mapped
+    # over, even if only filters (or no function at all) depend on them.
+    space_variables = set(model.variable_info.query("is_sparse | is_choice").index)
+
+    arg_names = (
+        {"vf_arr"}
+        | space_variables
+        | get_union_of_arguments(relevant_functions) - {"_period"}
+    )
     arg_names = [arg for arg in arg_names if "next_" not in arg]  # type: ignore[assignment]
 
     if is_last_period:
